@@ -40,6 +40,7 @@ type Job struct {
 	ReverseMaps bool             `json:"reverse_maps"`
 	Bounds      string           `json:"bounds"`
 	QueryMs     int              `json:"query_ms"`
+	NoNative    bool             `json:"no_native"` // counterexamples depend on engine-side stubs: confirm in engine concrete mode
 }
 
 type PropSpec struct {
